@@ -263,7 +263,7 @@ bui31_next(bitint_iter_t *restrict iter, bituint31_t bi)
 			goto term;
 		}
 		res = bi >> 1U;
-		*iter = res;
+		*iter = res + 1U;
 	} else if (bi >>= 1U, bi >>= *iter) {
 		for (; !(bi & 0b1U); (*iter)++, bi >>= 1U);
 		res = (*iter)++;
@@ -290,6 +290,9 @@ bi31_next(bitint_iter_t *restrict iter, bitint31_t bi)
 		/* get the naught out first */
 		res = 0U;
 		*iter = 1U;
+	} else if (*iter < 32U && !(bi.pos >> *iter) && (*iter = 33U, 0)) {
+		/* no positives (left), negatives are next */
+		;
 	} else if (*iter < 32U && (bi.pos >>= *iter)) {
 		/* we're still doing positives */
 		for (; !(bi.pos & 0b1U); (*iter)++, bi.pos >>= 1U);
@@ -322,7 +325,7 @@ bui63_next(bitint_iter_t *restrict iter, bituint63_t bi)
 			goto term;
 		}
 		res = bi >> 1U;
-		*iter = res;
+		*iter = res + 1U;
 	} else if (bi >>= 1U, bi >>= *iter) {
 		for (; !(bi & 0b1U); (*iter)++, bi >>= 1U);
 		res = (*iter)++;
@@ -349,6 +352,9 @@ bi63_next(bitint_iter_t *restrict iter, bitint63_t bi)
 		/* get the naught out first */
 		res = 0U;
 		*iter = 1U;
+	} else if (*iter < 64U && !(bi.pos >> *iter) && (*iter = 65U, 0)) {
+		/* no positives (left), negatives are next */
+		;
 	} else if (*iter < 64U && (bi.pos >>= *iter)) {
 		/* we're still doing positives */
 		for (; !(bi.pos & 0b1U); (*iter)++, bi.pos >>= 1U);
